@@ -2,6 +2,21 @@
 """Writes seeded/<ID>-<X>/meta.json from the sub-agent's agent_meta.json, my notes below and seeded/matrix.tsv."""
 import json,os,glob
 NOTES={
+ "C02-E":"fourth round; first missed (no enumeration context inside a variant's field list); caught since the context `type T { C( <tokens> ) }`",
+ "C03-E":"fourth round; first missed (single-token edits cannot delete an argument together with its closing parenthesis); caught since the labelled-call victim and the deletion of every run of 2-3 adjacent tokens",
+ "C05-E":"fourth round; first missed (a local spelled like an import accessor never held a record whose field was read); caught since the modules zrec/zuse",
+ "C07-E":"fourth round; first missed (no recursion group whose inference order matters); caught since `alpha`/`beta` in the chain workspaces",
+ "C09-E":"fourth round; first missed (operands always had a known type); caught since `fn(p) { p <=. 2.5 }(x)`: the operator alone determines an unannotated parameter. Two genuine defects surfaced while strengthening (fixes e80b506, b38c211)",
+ "C10-E":"fourth round; first missed; caught since the ill-formed but parseable snippets (alternatives of unequal arity among them) in the breaker",
+ "C12-E":"fourth round; first missed (every reader was a fresh thread); caught since four long-lived reader threads are handed a snapshot per step",
+ "C13-E":"fourth round; first missed (no change carried rangeLength); caught since every other ranged change of the real-server tier carries it",
+ "C15-E":"fourth round; first missed; caught since directory URIs (project root, its parent, src/) are among the odd URIs",
+ "C16-E":"fourth round; first missed (one open document); caught since races with a second, large open document that has diagnostics of its own",
+ "C17-E":"fourth round; first missed; caught since definition queries in the second project must land in that project's own copies",
+ "C18-E":"fourth round; first missed; caught since an unresolvable import is placed before/between/after the others in generated modules",
+ "C19-E":"fourth round; first missed (single-line ranges only); caught since highlight lists with ranges over line breaks, encoded per line by the reference",
+ "C20-E":"fourth round; first missed; caught since some broken workspaces start a file with a byte order mark",
+
  "C09-A":"patch re-ported to the current HEAD by hand (the alias arm of make_ty_from_typeref gained the expanding_aliases guard in fix 56c8c4e); same one-line omission",
  "C15-B":"demonstration adapted: since fix e031f7e a column past the end of a line is clamped, so the un-appliable edit in step 2 is now a LINE beyond the end of the document",
  "C10-B":"caught by C02's prefix-operator-in-pattern ladder and by C10's deep-nesting cases (2 MiB query stack)",
@@ -28,11 +43,11 @@ if os.path.exists(p):
         f=line.rstrip('\n').split('\t')
         if len(f)<3: matrix[f[0]]={"error":f[1] if len(f)>1 else ""}; continue
         matrix[f[0]]={kv.split('=')[0]:int(kv.split('=')[1]) for kv in f[1:]}
-for p2 in ('/verif/seeded/round2.tsv','/verif/seeded/round3.tsv'):
+for p2 in ('/verif/seeded/round2.tsv','/verif/seeded/round3.tsv','/verif/seeded/round4.tsv','/verif/seeded/round5.tsv'):
   if os.path.exists(p2):
     for line in open(p2):
         f=line.rstrip('\n').split('\t')
-        if len(f)>=2: matrix[f[0]]={kv.split('=')[0]:int(kv.split('=')[1]) for kv in f[1:]}
+        if len(f)>=2: matrix.setdefault(f[0],{}).update({kv.split('=')[0]:int(kv.split('=')[1]) for kv in f[1:] if '=' in kv})
 for d in sorted(glob.glob('/verif/seeded/C??-?')):
     name=os.path.basename(d)
     a=json.load(open(d+'/agent_meta.json'))
@@ -47,7 +62,7 @@ for d in sorted(glob.glob('/verif/seeded/C??-?')):
       "what_i_ran":[
         f"tools/confirm_mutant.sh (scratch worktree /tmp/cm/wt of /repo HEAD, own target dir; removed afterwards): {demo} without the change -> passes; `git apply patch.diff`; {demo} with the change -> fails; `cargo test --workspace --offline` with the change -> every test of the pinned suite that passes on HEAD still passes",
         "tools/mutant.sh patch.diff <property> : `git -C /repo apply`, ./check <property> --tier quick, `git -C /repo checkout -- .`",
-        "tools/matrix.sh : the same against all twenty quick checks (seed 0); exit codes below (later rounds `-C`, `-D`: own check only, seeded/round2.tsv, seeded/round3.tsv)",
+        "tools/matrix.sh : the same against all twenty quick checks (seed 0); exit codes below (later rounds `-C` and up: own check only, seeded/round<N>.tsv)",
       ],
       "quick_check_exit_codes":m,
       "caught_by":sorted(k for k,v in m.items() if v==1),
